@@ -70,6 +70,28 @@ Theorem queue_exit_only_tunnel_or_overflow : forall s o e, In e (queue s) ->
 Proof. exact step_queue_exit. Qed.
 Print Assumptions queue_exit_only_tunnel_or_overflow.
 
+(* Queued packets keep the classification they got when they were submitted.
+   (1) everything in the queue was put there by a send whose prefix was switched on at that moment;
+   (2) the step that flushes the queue hands nothing to the raw socket, whatever the switches of the
+       waiting packets' prefixes say by then (no re-classification at flush time);
+   (3) bytes equal to a waiting packet reach the raw socket only through a new, separate plain
+       submission of the same bytes, which leaves the state - and the waiting packet - untouched. *)
+Theorem queue_entries_were_anonymized : forall s o e, In e (queue (fst (step s o))) ->
+  In e (queue s) \/ (exists nh, o = Send (fst e) (snd e) nh /\ anon_on s (snd e) = true).
+Proof. exact step_queue_origin. Qed.
+Print Assumptions queue_entries_were_anonymized.
+
+Theorem flush_never_raw : forall s a p nh,
+  anon_on s p = true -> forall b q, ~ In (Raw b q) (snd (step s (Send a p nh))).
+Proof. exact flush_never_raw_l. Qed.
+Print Assumptions flush_never_raw.
+
+Theorem queued_never_raw : forall s o e,
+  In e (queue s) -> In (Raw (fst e) (snd e)) (snd (step s o)) ->
+  (exists nh, o = Send (fst e) (snd e) nh) /\ anon_on s (snd e) = false /\ fst (step s o) = s.
+Proof. exact queued_never_raw_l. Qed.
+Print Assumptions queued_never_raw.
+
 (* Overflow evicts only the oldest entry and only when the queue is full. *)
 Theorem eviction_only_when_full : forall s o b q, In (Evicted b q) (snd (step s o)) ->
   SEND_QUEUE_MAXLEN <= Z.of_nat (length (queue s)) /\ exists tl, queue s = (b, q) :: tl.
@@ -142,6 +164,15 @@ Example c07_nonvacuous_overflow :
   last (map ev_outs (trace init ops)) [] = [CreateCircuit 1 [4]; Evicted 0 pA; Queued 100 pA]
   /\ length (queue (final init ops)) = 100%nat.
 Proof. vm_compute. split; reflexivity. Qed.
+
+(* anonymity of A switched off while its packet waits; B's send flushes it - as tunnel data, not raw *)
+Example c07_nonvacuous_requeue :
+  let pB := 0 :: 2 :: repeat 66 20 in
+  map ev_outs (trace init [SetAnon pA true; SetAnon pB true; Attach 1; Send 7 (pA ++ [1]) (Some exitH);
+                           Toggle pA; AddHop 0 exitH; Send 9 (pB ++ [2]) None; Send 7 (pA ++ [3]) None])
+  = [[]; []; []; [CreateCircuit 1 [4]; Queued 7 (pA ++ [1])]; []; [];
+     [Tunnel 50 0 9 0 (pB ++ [2]); Tunnel 50 0 7 0 (pA ++ [1])]; [Raw 7 (pA ++ [3])]].
+Proof. vm_compute. reflexivity. Qed.
 
 Example c07_nonvacuous_delivery :
   notify [(1, Some true); (2, Some false); (3, None)] true = [1]
